@@ -168,3 +168,24 @@ CHECKS["C01"] = dict(
     probes=["self_move", "move_to_neighbour", "single_element_move", "splice_into_nonempty", "splice_from_empty", "destroy_linked_head_neighbour", "second_removal", "reinsert_linked_node", "sorted_insert", "insert_instead"],
     assumptions=["single caller at a time", "freeing a still-linked C node is caller misuse and is not generated"],
 )
+
+CHECKS["C02"] = dict(
+    engine="E6-hist",
+    level="exploration",
+    parts=[
+        dict(name="vector", mode="asan", harness=["harness/C02_vector.cpp"], igris=[], runs=dict(quick=40000, thorough=1500000)),
+        dict(name="twin", mode="asan", defs=["-DC02_TWIN"], harness=["harness/C02_vector.cpp"], igris=[], runs=dict(quick=20000, thorough=700000)),
+    ],
+    design_ref="DESIGN.md 4.6, 5 (C02)",
+    technique="deterministic simulation of operation histories over the Allocator/memory seam (SimAlloc: exact-size blocks, seed-chosen fill and immediate reuse), lifetime-tracking element type, step-by-step refinement against std::vector / std::map / std::set, ASan",
+    level_text="seeded histories on two vectors (so copy/move/compare between them are reachable) with int and lifetime-tracked elements: after every step size, element sequence, "
+               "capacity >= size, comparisons and at() are compared with std::vector; every element construction/destruction/assignment is checked against a registry of live "
+               "objects; allocator calls are balanced; flat_map / flat_set are compared with std::map / std::set. The twin of igris::vector in std_portable.h runs as a second part. Sampling, not proof",
+    level_note="sequential refinement against a reference model; no scheduler dimension, and no fault dimension beyond allocator/memory behaviour (what fresh memory contains, whether a freed block comes "
+               "straight back). Argument aliasing (push_back(v[0])) and allocation failure are not generated: the property promises neither",
+    rule="one run = one seeded op history over two vectors of one element type (or over one flat_map and one flat_set). non-trivial = a reallocation happened and an insert/erase "
+         "not at the end was executed (flat: a lookup hit and a lookup miss); distinct = distinct hash of the op trace",
+    simtime_units="container operations",
+    probes=["insert_at_realloc_boundary", "erase_prefix", "self_assign", "assign_from_empty", "fill_0xFF_memory", "range_insert", "copy_assign", "erase_tail", "freed_block_reused_at_once"],
+    assumptions=["elements passed to insert/push do not alias elements of the same vector", "allocation never fails"],
+)
